@@ -17,8 +17,13 @@ ASSUMPTIONS = ["parameter names are unique (generators key designs by name)", "l
 BOXES = ([0.0, 1.0], [-5.0, 5.0], [-3.0, -1.0], [0.1, 1.0], [0.0, 1e-9], [-1e12, 1e12], [1e6, 1e6 + 1.0])
 
 
+def pname(i):
+    """Unique names whose lexical order is the REVERSE of the declaration order (a generator must keep declaration order)."""
+    return "v%02d_%s" % (99 - i, "abcdefghijklmnopqrstuvwxyz"[i % 26])
+
+
 def params(n, shift=0):
-    return [{"name": "p%d" % i, "bounds": list(BOXES[(i + shift) % len(BOXES)])} for i in range(n)]
+    return [{"name": pname(i), "bounds": list(BOXES[(i + shift) % len(BOXES)])} for i in range(n)]
 
 
 def check_fullfact(n, center, shift):
